@@ -33,7 +33,7 @@ pub struct Done {
     pub submitted_uri: String,
 }
 
-fn imp_line(c: &Case, v: &imp::ValOut, submitted_uri: &str) -> String {
+pub fn imp_line(c: &Case, v: &imp::ValOut, submitted_uri: &str) -> String {
     let calls = format!("CALLS {}{}", v.calls.len(), v.calls.iter().map(|c| format!(" {}", c.show())).collect::<String>());
     if v.class == "OK" {
         let r = v.returned.as_ref().unwrap();
@@ -56,7 +56,7 @@ fn imp_line(c: &Case, v: &imp::ValOut, submitted_uri: &str) -> String {
     }
 }
 
-fn norm_model_line(m: &str, submitted_uri: &str) -> String {
+pub fn norm_model_line(m: &str, submitted_uri: &str) -> String {
     if m.starts_with("PANIC") {
         // drop the site
         let idx = m.find(" CALLS").unwrap_or(m.len());
@@ -77,6 +77,7 @@ pub fn other_for(c: &Case) -> String {
 pub fn run_jobs(ctx: &mut Ctx, op: &'static str, jobs: Vec<Job>) -> Vec<Done> {
     let mut lines = Vec::new();
     let mut pre = Vec::new();
+    let mut huge: Vec<bool> = Vec::new();
     for job in jobs {
         let req = match imp::build_request(&job.case) {
             Some(r) => r,
@@ -89,19 +90,31 @@ pub fn run_jobs(ctx: &mut Ctx, op: &'static str, jobs: Vec<Job>) -> Vec<Done> {
         let path = req.uri().path().to_string();
         let query = req.uri().query().map(|q| q.to_string());
         let other = other_for(&job.case);
-        lines.push(format!("VALIDATE {}", job.case.fields(&path, query.as_deref(), &other)));
+        let amps = job.case.body.iter().filter(|c| **c == b'&').count() + job.case.uri.bytes().filter(|c| *c == b'&').count();
+        if job.case.body.len() + job.case.uri.len() > 80_000 || amps > 1500 {
+            // the list-based model is quadratic in the number of parameters: huge inputs run on the
+            // implementation only (panic / error-type oracles still apply)
+            lines.push("ERRTAB IO".to_string());
+            huge.push(true);
+        } else {
+            lines.push(format!("VALIDATE {}", job.case.fields(&path, query.as_deref(), &other)));
+            huge.push(false);
+        }
         let mut prov = imp::provider_for(vec![imp::entry_of(&job.case)]);
         let v = imp::validate_with(&job.case, req, &mut prov);
         pre.push((job, v, submitted_uri));
     }
     let answers = ctx.drv.ask_all(&lines);
     let mut out = Vec::new();
-    for (((job, v, submitted_uri), model), line) in pre.into_iter().zip(answers.into_iter()).zip(lines.into_iter()) {
+    for ((((job, v, submitted_uri), model), line), is_huge) in pre.into_iter().zip(answers.into_iter()).zip(lines.into_iter()).zip(huge.into_iter()) {
         ctx.rep.count("evaluations");
+        if is_huge {
+            ctx.rep.count("impl_only_huge_inputs");
+        }
         ctx.rep.count(&format!("evaluations.{}", op));
         ctx.rep.count("traces_validated_against_impl");
         let il = imp_line(&job.case, &v, &submitted_uri);
-        let ml = norm_model_line(&model, &submitted_uri);
+        let ml = if is_huge { il.clone() } else { norm_model_line(&model, &submitted_uri) };
         ctx.rep.count(&format!("impl_outcome.{}", v.class.split('_').next().unwrap_or("").replace(' ', ".")));
         ctx.rep.distinct(&format!("{}|{}", line, il));
         if il != ml {
@@ -178,7 +191,7 @@ pub fn run_jobs(ctx: &mut Ctx, op: &'static str, jobs: Vec<Job>) -> Vec<Done> {
     out
 }
 
-fn job(case: Case, expect: Expect, class: &str, clause: &str) -> Job {
+pub fn job(case: Case, expect: Expect, class: &str, clause: &str) -> Job {
     Job { case, expect, class: class.to_string(), clause: clause.to_string(), expect_calls: None }
 }
 
@@ -876,11 +889,3 @@ fn check_first_token(ctx: &mut Ctx, done: Vec<Done>) {
     }
 }
 
-pub fn c08(_ctx: &mut Ctx) {}
-pub fn c11(_ctx: &mut Ctx) {}
-pub fn c12(_ctx: &mut Ctx) {}
-pub fn c13(_ctx: &mut Ctx) {}
-pub fn c14(_ctx: &mut Ctx) {}
-pub fn c15(_ctx: &mut Ctx) {}
-pub fn c17(_ctx: &mut Ctx) {}
-pub fn c18(_ctx: &mut Ctx) {}
